@@ -50,7 +50,7 @@ def g_event_cmd(d, idx, sort, nev):
     return c
 
 
-def gen_history(d, qcap, flags, lines=True, holds=True, long_history=True):
+def gen_history(d, qcap, flags, lines=True, holds=True, long_history=True, line_tags=None):
     nev = d.rng(2, 5)
     sorts = [d.weighted([(3, "auto"), (3, "scripted"), (2, "chain"), (3, "failing")]) for _ in range(nev)]
     if "failing" not in sorts and d.chance(2, 3):
@@ -64,7 +64,7 @@ def gen_history(d, qcap, flags, lines=True, holds=True, long_history=True):
             codes = [OK, DATA_OK, DATA_NEXT, NEXT, ERR] + ([HOLD, HOLD] if holds else [])
             for k in h:
                 if d.below(2):
-                    c["scripts"]["0" + k] = [S.mk_step(d.pick(codes), d.below(3) if k == "r" else 0, d.pick(G.TAGS[:5])) for _ in range(d.rng(1, 3))]
+                    c["scripts"]["0" + k] = [S.mk_step(d.pick(codes), d.below(3) if k == "r" else 0, d.pick(line_tags or G.TAGS[:5])) for _ in range(d.rng(1, 3))]
             lcs.append(c)
     cmds = evs + lcs
     actions = []
@@ -116,6 +116,7 @@ class QueueVerdict:
         self.max_waiting = 0
         self.queries = 0
         self.two_pending = False
+        self.pending_by_step = []
         self.fail_then_queued = False
 
 
@@ -235,6 +236,7 @@ def judge_queue(s, t, check_outputs=True, check_ok_idle=False):
             if cur_pu != -1:
                 v.violation = ("phantom-event", "after step %d the library processes command %d but nothing was accepted" % (st, cur_pu))
                 return v
+        v.pending_by_step.append(len(waiting) + (1 if inprog is not None else 0))
         if len(waiting) + (1 if inprog is not None else 0) >= 2:
             v.two_pending = True
         if stat is not None and stat[st] == S.S_OK and (waiting or inprog is not None):
@@ -264,3 +266,62 @@ def judge_queue(s, t, check_outputs=True, check_ok_idle=False):
             v.violation = ("event-units", "units for the accepted events %r: expected %r, observed %r (output %r)" % (order, exp_units, got_units, t.out[-300:]))
             return v
     return v
+
+
+def expand_samples(t):
+    """per-step arrays (processed_u, busy, hold) from the on-change P records"""
+    n = t.q["steps"]
+    pu, busy, hold = [-1] * n, [0] * n, [0] * n
+    cur = (-1, 0, 0)
+    idx = 0
+    sm = t.samples
+    for st in range(n):
+        while idx < len(sm) and sm[idx][0] <= st:
+            cur = sm[idx][1:]
+            idx += 1
+        pu[st], busy[st], hold[st] = cur
+    return pu, busy, hold
+
+
+def hold_timeline(t):
+    """expected cat_is_hold after every step: HOLD from the step in which a command handler returned HOLD until the step
+    in which the first accepted release request is made (cat_hold_exit returning OK, or an event handler returning
+    HOLD_EXIT_* while held); the library acts on a request in the same / the next service call, which is the call of
+    that step.  Returns (list of bool per step, list of hold windows (start, release_step or None, status))."""
+    n = t.q["steps"]
+    held = False
+    exp = [False] * n
+    windows = []
+    last_step = 0
+    marks = []   # (step, held_after_this_event)
+    for k, e in t.events:
+        if k == "H":
+            if e.fsm == "c" and e.code == S.HOLD and not held:
+                held = True
+                windows.append([e.step, None, None])
+                marks.append((e.step, True))
+            elif e.fsm == "u" and e.code in (S.HEX_OK, S.HEX_ERR) and windows and (held or windows[-1][1] == e.step):
+                # (a request made in the same step as an earlier one still reaches the library before it acts)
+                if held:
+                    windows[-1][1] = e.step
+                    windows[-1][2] = []
+                    marks.append((e.step, False))
+                held = False
+                windows[-1][2].append(0 if e.code == S.HEX_OK else 1)
+        elif k == "A" and e.name == "holdexit":
+            if windows and (held or (windows[-1][1] == e.step and not e.insvc)):
+                # accepted (the return value is judged by C14); several requests can reach the library before it acts
+                if held:
+                    windows[-1][1] = e.step
+                    windows[-1][2] = []
+                    marks.append((e.step, False))
+                held = False
+                windows[-1][2].append(e.args[0])
+    cur = False
+    mi = 0
+    for st in range(n):
+        while mi < len(marks) and marks[mi][0] <= st:
+            cur = marks[mi][1]
+            mi += 1
+        exp[st] = cur
+    return exp, windows
